@@ -21,7 +21,7 @@ REPO = os.environ.get("VERIF_REPO_ORIG", "/repo")
 MUTANTS = [
     ("claim-ignores-version", "persistence/sqlite/transaction.py",
      "                    WHERE id = :id AND version = :version AND status = :expected_phase",
-     "                    WHERE id = :id AND status = :expected_phase AND :version >= 0", ["C04", "C07"]),
+     "                    WHERE id = :id AND status = :expected_phase AND :version >= 0", ["C07"]),
     ("txn-store-ignores-version", "persistence/sqlite/transaction.py",
      "                    WHERE id = :id AND version = :version\n                    \"\"\",\n                    {\n                        \"id\": stage.id,\n                        \"status\": stage.status.name,\n                        \"context\": json.dumps(stage.context, default=str),\n                        \"outputs\": json.dumps(stage.outputs, default=str),\n                        \"start_time\": stage.start_time,\n                        \"end_time\": stage.end_time,\n                        \"version\": stage.version,\n                    },\n                )\n\n            if cursor.rowcount == 0:",
      "                    WHERE id = :id AND :version >= 0\n                    \"\"\",\n                    {\n                        \"id\": stage.id,\n                        \"status\": stage.status.name,\n                        \"context\": json.dumps(stage.context, default=str),\n                        \"outputs\": json.dumps(stage.outputs, default=str),\n                        \"start_time\": stage.start_time,\n                        \"end_time\": stage.end_time,\n                        \"version\": stage.version,\n                    },\n                )\n\n            if cursor.rowcount == 0:", ["C07"]),
